@@ -23,7 +23,7 @@ RULE = ("split: n = 0..6 rows tagged with their index, 1-2 feature columns, labe
         "for n = 6); un-intercepted seeds 0..31 (thorough 0..255) for determinism, also after "
         "arbitrary prior use of the global RNG; oracle: index sets partition 0..n-1, rows and "
         "labels follow their indices, |first| = int(n*percentage), split == split_with_index, "
-        "merge gives back the multiset of rows. convert/load/parse: every OPF binary dataset with "
+        "merge (of the very objects returned, in both orders) gives back the multiset of labelled rows. convert/load/parse: every OPF binary dataset with "
         "n = 1..3 samples over 9 feature vectors (float32-representable and not), arbitrary ids (small, "
         "unordered, and above 2**24 up to 2**31-1), "
         "labels 1..K -> opf2txt/csv/json -> load_* -> parse_loader and Subgraph(from_file): "
